@@ -178,6 +178,19 @@ def w2_case(res, case):
                     res.violation(key + f'/overflow-soundness-{j}', case, f'output {j} lane {lane}: overflow indicator clear but waveform {times} differs from capacity-64 waveform {bt} {nl}'); break
             else:
                 res.count('w2_overflow_flags')
+    # a second capture on the same simulator object with another capture time
+    T2 = 2.5 if T != 2.5 else 1.25
+    sim.c_to_s(time=T2)
+    for j, pos in enumerate(opos + spos):
+        node = (b.out_nodes + b.st_nodes)[j]
+        li = stems.get(node.ins[0].index, node.ins[0].index)
+        for lane in range(0, n, 7):
+            ini, times, term, ovl = wsim.decode(sim.c, int(sim.c_locs[li]), int(sim.c_caps[li]), lane)
+            ei, eeat, elst, efin, ev = summary(ini, times, T2)
+            got = (float(sim.s[3, pos, lane]), float(sim.s[4, pos, lane]), float(sim.s[5, pos, lane]), float(sim.s[6, pos, lane]), float(sim.s[7, pos, lane]), float(sim.s[8, pos, lane]), float(sim.s[10, pos, lane]))
+            exp = (float(ei), eeat, elst, float(efin), float(ev), float(ev), float(ovl))
+            if got != exp:
+                res.violation(key + f'/recapture-{j}', case, f'output {j} lane {lane}: second capture at T={T2}: s[3,4,5,6,7,8,10] = {got} expected {exp} {nl}'); break
     # accumulated switching activity
     exp_abuf = np.zeros_like(np.asarray(sim.abuf))
     evaluated = {int(o) for o in np.asarray(sim.ops)[:, 1]}
